@@ -121,7 +121,9 @@ Definition m_put_many (o : wopts) (m : mstate) (blks : list (bytes * bytes)) : m
 Definition m_st_put (o : wopts) (m : mstate) (c d : bytes) : mstate * out :=
   match cid_parse c with
   | None => (m, OErr EOther)
-  | Some p => if m_closed m then (m, OErr EClosed) else m_put_one o m c d p
+  | Some p => if m_closed m then (m, OErr EClosed)
+              else if m_finalized m then (m, OErr EOther)  (* StorageCar.writeErr (C16): never set without write faults *)
+              else m_put_one o m c d p
   end.
 
 Definition m_has (o : wopts) (m : mstate) (c : bytes) : out :=
@@ -188,7 +190,8 @@ Definition m_bs_discard (m : mstate) : mstate * out := (m_set_flags m true (m_fi
 
 (* StorageCar.Finalize: closes the store in both formats; a second call is an error *)
 Definition m_st_finalize (o : wopts) (m : mstate) : mstate * out :=
-  if m_closed m then (m, OErr EOther)
+  if m_finalized m then (m_set_flags m true true, OErr EOther)   (* StorageCar.writeErr (C16) *)
+  else if m_closed m then (m, OErr EOther)
   else (m_set_flags m true (m_finalized m),
         if w_v1 o then ONil else if codec_ok o then ONil else OErr EOther).
 
